@@ -19,6 +19,7 @@ import (
 	"net/http"
 	"os"
 	"sort"
+	"strconv"
 	"strings"
 	"sync"
 	"sync/atomic"
@@ -301,6 +302,12 @@ func (env *c03Env) scriptString() string {
 	return sb.String()
 }
 
+// c03ReportStray records connections that reached a listener while no case
+// was active (would indicate leakage between cases; expected to stay 0).
+func c03ReportStray() {
+	stats.InfoAdd("stray_connections_between_cases", atomic.SwapInt64(&c03StrayReqs, 0))
+}
+
 // ---------------------------------------------------------------- oracle
 
 func c03IsOK(c c03Class, sized bool) bool {
@@ -453,6 +460,7 @@ func c03max(a, b int) int {
 
 func TestVerifC03Get(t *testing.T) {
 	defer stats.Flush()
+	defer c03ReportStray()
 	rapid.Check(t, func(t *rapid.T) {
 		env := c03Setup(t)
 		defer env.finish(t)
@@ -639,6 +647,10 @@ func c03CheckReadAt(t *rapid.T, env *c03Env, blk *c03Block, off, plen int, hist 
 		// not claimed by the property (an error was reported); recorded only
 		labels["note:error-with-nonmatching-bytes-in-buffer"] = true
 	}
+	if !blk.sized {
+		stats.InfoAdd("readat_unsized_calls", 1)
+		stats.InfoAdd("readat_unsized_requests", int64(len(delta)))
+	}
 	for _, r := range delta {
 		if r.Hash != blk.hash {
 			fail("VERIF-INFRA: ReadAt of %s caused a request for another block %s", blk.hash, r.Hash)
@@ -672,6 +684,12 @@ func c03CheckReadAt(t *rapid.T, env *c03Env, blk *c03Block, off, plen int, hist 
 
 func TestVerifC03Cache(t *testing.T) {
 	defer stats.Flush()
+	defer c03ReportStray()
+	// BlockCache allocates a 64 MiB buffer per fetch when the locator has no
+	// size hint; in this sandbox first-touch of that much fresh memory can
+	// take seconds, so bare-hash locators are exercised by a separate unit
+	// with a small case count (C03_UNSIZED_PCT set) instead of everywhere.
+	unsizedPct, _ := strconv.Atoi(os.Getenv("C03_UNSIZED_PCT"))
 	rapid.Check(t, func(t *rapid.T) {
 		env := c03Setup(t)
 		defer env.finish(t)
@@ -679,7 +697,7 @@ func TestVerifC03Cache(t *testing.T) {
 		nblk := c03UR(t, "nBlocks", 1, 3)
 		var blks []*c03Block
 		for i := 0; i < nblk; i++ {
-			b := c03GenBlock(t, env, fmt.Sprintf("blk%d", i), i == 0, 3)
+			b := c03GenBlock(t, env, fmt.Sprintf("blk%d", i), i == 0 && unsizedPct == 0, unsizedPct)
 			dup := false
 			for _, o := range blks {
 				if o.hash == b.hash {
@@ -691,14 +709,19 @@ func TestVerifC03Cache(t *testing.T) {
 			}
 		}
 		c03GenScripts(t, env, 30)
-		labels := map[string]bool{fmt.Sprintf("blocks:%d", len(blks)): true, fmt.Sprintf("maxBlocks:%d", env.kc.BlockCache.MaxBlocks): true,
+		anyUnsized := false
+		for _, b := range blks {
+			if !b.sized {
+				anyUnsized = true
+			}
+		}
+		labels := map[string]bool{fmt.Sprintf("blocks:%d", len(blks)): true, fmt.Sprintf("bare-hash-locator:%v", anyUnsized): true, fmt.Sprintf("maxBlocks:%d", env.kc.BlockCache.MaxBlocks): true,
 			fmt.Sprintf("retries:%d", env.retries): true}
 		var hist []string
-		lastErr := map[string]bool{}  // block -> its most recent ReadAt failed
-		everOK := map[string]bool{}   // block -> some ReadAt succeeded before
+		lastErr := map[string]bool{} // block -> its most recent ReadAt failed
+		everOK := map[string]bool{}  // block -> some ReadAt succeeded before
 		var all []c03Req
 		nsteps := c03UR(t, "nSteps", 2, 10)
-		anySized := true
 		readat := func(b *c03Block, label string) {
 			var off, plen int
 			n := len(b.content)
@@ -788,11 +811,7 @@ func TestVerifC03Cache(t *testing.T) {
 			if hadErr {
 				labels["final-refetch-after-error"] = true
 			}
-			if !b.sized {
-				anySized = false
-			}
 		}
-		_ = anySized
 		nt := false
 		for _, r := range all {
 			if r.Class != clsOK && r.Class != clsOKNoLen {
@@ -888,6 +907,7 @@ func c03GenManifest(t *rapid.T, env *c03Env) (string, []c03FileSpec, []*c03Block
 
 func TestVerifC03File(t *testing.T) {
 	defer stats.Flush()
+	defer c03ReportStray()
 	rapid.Check(t, func(t *rapid.T) {
 		env := c03Setup(t)
 		defer env.finish(t)
@@ -1067,6 +1087,7 @@ type c03ConcResult struct {
 
 func TestVerifC03Concurrent(t *testing.T) {
 	defer stats.Flush()
+	defer c03ReportStray()
 	rapid.Check(t, func(t *rapid.T) {
 		env := c03Setup(t)
 		defer env.finish(t)
